@@ -26,7 +26,7 @@ def _force_tracer_on_128k(scn):
     return scn
 
 B8 = (0x00, 0x01, 0x0F, 0x10, 0x7F, 0x80, 0xFE, 0xFF, 0x99, 0x9A, 0x66, 0x0A, 0xA0)
-B16 = (0x0000, 0x0001, 0x7FFF, 0x8000, 0xFFFF, 0xFFFE, 0x8001, 0x7FFE, 0x0FFF, 0x1000, 0xF000, 0x00FF, 0x0100, 0x7F00, 0x80FF, 0x0800, 0xF7FF)
+B16 = gen_lock.B16
 BF = (0x00, 0x01, 0xFF, 0x10, 0x11, 0x02, 0x03, 0x12, 0x13, 0x40, 0x80, 0x04, 0xD7, 0xD6)
 
 def gen_regsweep(rng, tier, index):
@@ -36,6 +36,36 @@ def gen_regsweep(rng, tier, index):
     code = gen_lock.slot_bytes(rng, slot)
     return {'kind': 'regsweep', 'slot': slot, 'code': code, 'engine': REPLICAS[index % 4], 'machine': '48K', 'cseed': rng.getrandbits(48),
             'cases': 96 if tier == 'quick' else 1500, 'pc': rng.choice((0x8000, 0xC000, 0x6000, 0xFFF0))}
+
+def sweep_state(rng, pc):
+    state = [0] * 30
+    for i in list(range(0, 12)) + list(range(16, 24)):
+        state[i] = rng.choice(B8) if rng.random() < 0.8 else rng.randrange(256)
+    state[1] = rng.choice(BF) if rng.random() < 0.8 else rng.randrange(256)
+    for hi in (2, 4, 6, 8, 10):
+        if rng.random() < 0.6:
+            v = rng.choice(B16)
+            state[hi], state[hi + 1] = v >> 8, v & 0xFF
+    state[12] = rng.choice(B16 + (0x9000, 0x9000, 0x9000))
+    if rng.random() < 0.3:
+        # operands whose sum or difference sits exactly on a carry / overflow / half-carry boundary, with or without
+        # the carry-in: HL (or IX/IY) + rr (+1) in {0xFFFF, 0x10000, 0x7FFF, 0x8000, 0x0FFF, 0x1000, 0}
+        bhi = rng.choice((6, 6, 8, 10))
+        base = state[bhi] * 256 + state[bhi + 1]
+        k = rng.choice((0xFFFF, 0x10000, 0x7FFF, 0x8000, 0x0FFF, 0x1000, 0x0000, 0x0001))
+        v = ((k - base - rng.randrange(2)) if rng.random() < 0.5 else (base - k + rng.randrange(2))) & 0xFFFF
+        tgt = rng.choice((2, 4, 12))
+        if tgt == 12:
+            state[12] = v
+        else:
+            state[tgt], state[tgt + 1] = v >> 8, v & 0xFF
+    state[14] = rng.randrange(256)
+    state[15] = rng.choice((0, 0x7F, 0x80, 0xFF, rng.randrange(256)))
+    state[24] = pc
+    state[25] = rng.randrange(0, 69888)
+    state[26] = rng.randrange(2)
+    state[27] = rng.randrange(3)
+    return state
 
 def run_regsweep(scn):
     import random
@@ -52,21 +82,7 @@ def run_regsweep(scn):
     regs = rp.sim.registers
     n = 0
     for case in range(scn['cases']):
-        state = [0] * 30
-        for i in list(range(0, 12)) + list(range(16, 24)):
-            state[i] = rng.choice(B8) if rng.random() < 0.8 else rng.randrange(256)
-        state[1] = rng.choice(BF) if rng.random() < 0.8 else rng.randrange(256)
-        for hi in (2, 4, 6, 8, 10):
-            if rng.random() < 0.6:
-                v = rng.choice(B16)
-                state[hi], state[hi + 1] = v >> 8, v & 0xFF
-        state[12] = rng.choice(B16 + (0x9000, 0x9000, 0x9000))
-        state[14] = rng.randrange(256)
-        state[15] = rng.choice((0, 0x7F, 0x80, 0xFF, rng.randrange(256)))
-        state[24] = scn['pc']
-        state[25] = rng.randrange(0, 69888)
-        state[26] = rng.randrange(2)
-        state[27] = rng.randrange(3)
+        state = sweep_state(rng, scn['pc'])
         for i, v in enumerate(state):
             regs[i] = v
         ref.cpu.reg[:] = state
@@ -99,7 +115,12 @@ def run_regsweep(scn):
     res['digest'] = hashlib.sha256(('%d|%d' % (scn['slot'], n)).encode()).hexdigest()
     return res
 
+NX = len(exhaust.TEMPLATES) * 4
+NC = len(exhaust.CLOCK_TEMPLATES) * 4
+
 def gen(rng, tier, index):
+    if NX <= index < NX + NC:
+        return {'kind': 'exhaust', 'template': list(exhaust.CLOCK_TEMPLATES[(index - NX) // 4]), 'engine': REPLICAS[index % 4], 'machine': '48K'}
     if index < len(exhaust.TEMPLATES) * 4:
         # the first scenarios of every batch are the exhaustive 8-bit table sweeps: every template chunk on every engine
         return {'kind': 'exhaust', 'template': list(exhaust.TEMPLATES[index // 4]), 'engine': REPLICAS[index % 4], 'machine': '48K'}
@@ -117,7 +138,8 @@ def gen(rng, tier, index):
 
 def run_exhaust(scn):
     res = new_result()
-    bad, n = exhaust.run(tuple(scn['template']), [scn['engine']], True, lambda vc, d: (vc, d))
+    runner = exhaust.run_clock if scn['template'][0] == 'clock' else exhaust.run
+    bad, n = runner(tuple(scn['template']), [scn['engine']], True, lambda vc, d: (vc, d))
     bump(res, 'events', n)
     bump(res, 'table_entries_executed', n)
     if bad:
